@@ -377,7 +377,7 @@ func (e *Engine) execInstr(s *State, gi int, g *G, fr *Frame, instr ssa.Instruct
 	switch in := instr.(type) {
 	case *ssa.Alloc:
 		elem := in.Type().Underlying().(*types.Pointer).Elem()
-		id := s.alloc(&Object{v: e.zero(elem), label: in.Comment})
+		id := s.alloc(&Object{v: e.zero(elem), label: in.Comment, typ: elem})
 		e.setReg(fr, in, Ptr{obj: id})
 	case *ssa.BinOp:
 		x, y := e.operand(fr, in.X), e.operand(fr, in.Y)
